@@ -64,3 +64,78 @@ def rename_fields(expr, mapping):
                 return ("f", mapping[n], a[2])
         return a
     return expr.map_atoms(f)
+
+
+from ..pwtools import pw_equal
+from ..regions import Box, lt
+
+
+def pin_indices(expr, box):
+    """on axes where the cell box is one cell wide the index is known: substitute it for @k and
+    turn absolute offsets into relative ones (so both spellings of the same cell compare equal)"""
+    from ..regions import concrete_extent
+    from ..poly import Poly
+    one = [k for k in range(box.rank) if concrete_extent(box.extent(k)) == 1]
+    if not one or expr is None:
+        return expr
+    sub = {("s", "@%d" % k): box.iv[k][0].poly() for k in one}
+
+    def f(a):
+        if a[0] == "f":
+            offs = list(a[2])
+            ch = False
+            for k in one:
+                if k < len(offs) and isinstance(offs[k], tuple) and offs[k][0] == "a":
+                    d = offs[k][1] - box.iv[k][0].poly()
+                    if d.is_const():
+                        offs[k] = int(d.const_value())
+                        ch = True
+            if ch:
+                return ("f", a[1], tuple(offs))
+        return a
+    e = expr.map_atoms(f)
+    if any(a in e.all_atoms() for a in sub):
+        e = e.subs(sub)
+    return e
+
+
+def refine(cells, cuts):
+    """split cells at the given per-axis cut bounds"""
+    out = list(cells)
+    for k, cs in enumerate(cuts):
+        for c in cs:
+            nxt = []
+            for box, e in out:
+                lo, hi = box.iv[k]
+                if lt(lo, c) and lt(c, hi):
+                    iv1, iv2 = list(box.iv), list(box.iv)
+                    iv1[k] = (lo, c)
+                    iv2[k] = (c, hi)
+                    nxt.append((Box(iv1), e))
+                    nxt.append((Box(iv2), e))
+                else:
+                    nxt.append((box, e))
+            out = nxt
+    return out
+
+
+
+
+def match_spec(cells, fb, spec):
+    """compare the disjoint cells of an array with a region spec; returns (bad_formula, bad_region)"""
+    bad_region, bad_formula = None, None
+    for box, got in refine(cells, spec.cuts(fb)):
+        try:
+            want = spec.expect(box, fb)
+        except Straddle as ex:
+            bad_region = "%s (%s)" % (ex, spec.describe())
+            continue
+        got, want = pin_indices(got, box), pin_indices(want, box)
+        if got is None or not pw_equal(got, want):
+            if isinstance(spec, IntRing) and not fb.shrink(spec.g).contains(box):
+                bad_region = "ring cell %r holds %s, documented %s" % (box, short(got, 200), short(want, 200))
+            elif isinstance(spec, Zones) and pw_equal(want, spec.fnc(tuple("mid" for _ in fb.iv), fb)):
+                bad_region = "cell %r outside the zone is modified: %s" % (box, short(got, 200))
+            else:
+                bad_formula = "cell %r: got %s, documented %s" % (box, short(got, 300), short(want, 300))
+    return bad_formula, bad_region
